@@ -10,7 +10,7 @@ namespace Proofs.C15
 open Py Xs.Bind Xs.Fault
 
 /-- the exception types that do escape from `DictDecoder.decode` (known findings) -/
-def dictLeaks : List String := ["AttributeError", "AssertionError", "TypeError", "ValueError", "KeyError"]
+def dictLeaks : List String := ["AssertionError", "TypeError", "ValueError", "KeyError"]
 
 /-- parser-side errors plus the leaks of `dictLeaks` -/
 def Err.dictSide : Err → Bool
@@ -199,6 +199,26 @@ theorem decode_dclean (e : BEnv) (Γ : Ctx) (cfg : ParserConfig) (fuel : Nat) (c
     | dsimp only)
 
 
+theorem bindAll_dclean (e : BEnv) (Γ : Ctx) (cfg : ParserConfig) (fuel : Nat) (c : ClassId) (data : J) :
+    DClean (bindAll e Γ cfg fuel c data) := by
+  have h1 := fun d c => (bind_dclean e Γ fuel).1 cfg d c
+  unfold bindAll
+  split
+  · exact DClean.bind (DClean.mapM _ (fun x => h1 x c) _) (fun _ => DClean.pure _)
+  · exact h1 _ _
+
+theorem decodeAuto_dclean (e : BEnv) (Γ : Ctx) (cfg : ParserConfig) (fuel : Nat) (data : J) :
+    DClean (decodeAuto e Γ cfg fuel data) := by
+  unfold decodeAuto
+  split
+  · rfl
+  · dsimp only
+    split
+    · split
+      · rfl
+      · exact bindAll_dclean _ _ _ _ _ _
+    · rfl
+
 /-! ### the region without leaks: flat documents on plain classes -/
 
 /-- a JSON scalar other than null -/
@@ -212,10 +232,16 @@ def J.flat : J → Bool
   | .arr xs => xs.all J.scalar
   | _ => true
 
-/-- an object whose members are flat and whose key set is not that of a derived element -/
-def flatDoc : J → Bool
-  | .obj kvs => !keysAre kvs derivedKeys && kvs.all (fun kv => J.flat kv.2)
-  | _ => false
+/-- an object whose members are flat — or anything that is not an object (rejected with
+ParserError since the decoder checks `isinstance(data, dict)`) -/
+def flatObj : J → Bool
+  | .obj kvs => kvs.all (fun kv => J.flat kv.2)
+  | _ => true
+
+/-- a document: one such value, or an array of them (for `list[clazz]` targets) -/
+def flatTop : J → Bool
+  | .arr xs => xs.all flatObj
+  | d => flatObj d
 
 /-- no `xs:anyAttribute` field and no wrapped list field -/
 def plainMeta (m : XmlMeta) : Bool := (allVars m).all (fun v => !v.isAttributes && v.wrapperQName.isNone)
@@ -302,43 +328,74 @@ theorem findVar_mem (vars : List XmlVar) (key : Str) (value : J) (var : XmlVar)
   exact this ▸ ha
 
 /-- flat documents on plain classes do not leak -/
-theorem decode_flat_clean (e : BEnv) (Γ : Ctx) (cfg : ParserConfig) (fuel : Nat) (c : ClassId) (data : J)
-    (hd : flatDoc data = true) (hc : plainClass Γ c = true) :
-    Clean (decode e Γ cfg fuel c false data) := by
-  cases data with
-  | obj kvs =>
-    simp only [flatDoc, Bool.and_eq_true, Bool.not_eq_true'] at hd
-    obtain ⟨hk, hflat⟩ := hd
-    unfold decode
-    simp only [J.isArr]
-    cases fuel with
-    | zero => simp [bindDataclass]; rfl
-    | succ n =>
-      simp only [bindDataclass, hk]
-      simp only [Bool.false_eq_true, if_false, ne_eq, not_true_eq_false]
-      unfold plainClass at hc
+theorem J.flat_flatObj (v : J) (h : J.flat v = true) : flatObj v = true := by
+  cases v <;> first | rfl | (simp [J.flat] at h)
+
+theorem J.get_mem (kvs : List (Str × J)) (k : Str) (v : J) (h : J.get kvs k = some v) : ∃ kv ∈ kvs, kv.2 = v := by
+  unfold J.get at h
+  cases hf : kvs.find? (·.1 = k) with
+  | none => simp [hf] at h
+  | some kv =>
+    simp [hf] at h
+    exact ⟨kv, List.mem_of_find?_eq_some hf, h⟩
+
+/-- `bind_dataclass` on flat objects (and on anything that is not an object) of a plain class -/
+theorem bindDataclass_flat (e : BEnv) (Γ : Ctx) (cfg : ParserConfig) (c : ClassId) (hc : plainClass Γ c = true) :
+    ∀ (fuel : Nat) (data : J), flatObj data = true → Clean (bindDataclass e Γ cfg fuel data c)
+  | 0, _, _ => by unfold bindDataclass; rfl
+  | n + 1, data, hd => by
+    cases data with
+    | obj kvs =>
+      have hflat : kvs.all (fun kv => J.flat kv.2) = true := by simpa [flatObj] using hd
+      unfold bindDataclass
+      dsimp only
       split
-      · rfl
-      · rename_i m hm
-        rw [hm] at hc
-        apply Clean.bind
-        · apply Clean.foldlM_mem
-          intro params kv hkv
-          split
-          · split <;> clean_leaf
-          · rename_i var hfind
-            have hmem := findVar_mem _ _ _ _ hfind
-            have hp := List.all_eq_true.mp hc var hmem
-            simp only [Bool.and_eq_true, Bool.not_eq_true'] at hp
-            have hw : (wrapperName var).isSome = false := by
-              unfold wrapperName; cases hq : var.wrapperQName <;> simp_all
-            rw [hw]
-            simp only [Bool.false_eq_true, if_false, pure_bind]
-            have hfl := List.all_eq_true.mp hflat kv hkv
-            have hb := fun fuel r => bindValue_flat e Γ cfg m var hp.1 fuel kv.2 r hfl
-            clean_descend
-            all_goals exact hb _ _
-        · intro params; exact classFactory_clean _ _ _
-  | _ => simp [flatDoc] at hd
+      · -- derived keys: the `value` member is flat, hence not an object
+        apply bindDataclass_flat e Γ cfg c hc n
+        cases hg : J.get kvs "value".toList with
+        | none => rfl
+        | some v =>
+          obtain ⟨kv, hkv, hv⟩ := J.get_mem _ _ _ hg
+          have := List.all_eq_true.mp hflat kv hkv
+          simp only [Option.getD_some]
+          exact J.flat_flatObj v (hv ▸ this)
+      · unfold plainClass at hc
+        split
+        · rfl
+        · rename_i m hm
+          rw [hm] at hc
+          apply Clean.bind
+          · apply Clean.foldlM_mem
+            intro params kv hkv
+            split
+            · split <;> clean_leaf
+            · rename_i var hfind
+              have hmem := findVar_mem _ _ _ _ hfind
+              have hp := List.all_eq_true.mp hc var hmem
+              simp only [Bool.and_eq_true, Bool.not_eq_true'] at hp
+              have hw : (wrapperName var).isSome = false := by
+                unfold wrapperName; cases hq : var.wrapperQName <;> simp_all
+              rw [hw]
+              simp only [Bool.false_eq_true, if_false, pure_bind]
+              have hfl := List.all_eq_true.mp hflat kv hkv
+              have hb := fun fuel r => bindValue_flat e Γ cfg m var hp.1 fuel kv.2 r hfl
+              clean_descend
+              all_goals exact hb _ _
+          · intro params; exact classFactory_clean _ _ _
+    | _ => unfold bindDataclass; rfl
+
+/-- flat documents on plain classes do not leak, whatever the target (`clazz` or `list[clazz]`) -/
+theorem decode_flat_clean (e : BEnv) (Γ : Ctx) (cfg : ParserConfig) (fuel : Nat) (c : ClassId) (listOf : Bool) (data : J)
+    (hd : flatTop data = true) (hc : plainClass Γ c = true) :
+    Clean (decode e Γ cfg fuel c listOf data) := by
+  unfold decode
+  split
+  · rfl
+  · cases data with
+    | arr xs =>
+      have hx : ∀ x ∈ xs, Clean (bindDataclass e Γ cfg fuel x c) := fun x hx =>
+        bindDataclass_flat e Γ cfg c hc fuel x (List.all_eq_true.mp (by simpa [flatTop] using hd) x hx)
+      exact Clean.bind (Clean.mapM_mem _ _ hx) (fun _ => Clean.pure _)
+    | _ => exact bindDataclass_flat e Γ cfg c hc fuel _ (by simpa [flatTop] using hd)
 
 end Proofs.C15
